@@ -153,6 +153,41 @@ def rule_units(ctx, f):
                           "the lexer is told its buffer starts at %s but the slice was read from %s: every position it reports "
                           "(stream ranges, scan results) is shifted" % (sorted(off_names), sorted(st_names)), t["span"],
                           detail="offset == start of the slice (%s)" % sorted(st_names))
+    # comparisons: an absolute buffer position is compared with absolute quantities (the buffer's length), a header-relative offset with
+    # header-relative ones (length minus the header position) - `abs > len - start_offset` is off by the length of the prefix
+    from linear import linear
+    ncmp = 0
+    for b in f.bodies.values():
+        if not ((b.get("impl") or {}).get("self", "").startswith("file::Storage") or b["id"].startswith("file::Storage")) or b["kind"] == "Closure":
+            continue
+        fl = Flow(b)
+        cfg = CFG(b)
+        for i, j, st in F.stmts(b):
+            if not (st[0] == "assign" and st[2][0] == "binop" and st[2][1] in ("Lt", "Le", "Gt", "Ge")):
+                continue
+            sides = []
+            for o in (st[2][2], st[2][3]):
+                l = F.op_local(o)
+                lf = linear(fl, o) if o[0] in ("copy", "move") else None
+                nb = sum(co for atom, co in (lf[0].items() if lf else []) if atom == "field:start_offset" or (isinstance(atom, int) and 1 <= atom <= b["argc"] and u.param_is_base(b, atom)))
+                tags = u.classify(b, l, at=i, cfg=cfg, fl=fl) if l is not None else set()
+                sides.append((nb, tags))
+            kinds = []
+            for nb, tags in sides:
+                if nb < 0:
+                    kinds.append("relative")          # something minus the header position
+                elif nb > 0 or "abs-param" in tags or ("abs" in tags and "rel" not in tags and "base" not in tags):
+                    kinds.append("absolute")
+                elif "rel" in tags and "base" not in tags:
+                    kinds.append("relative")
+                else:
+                    kinds.append(None)
+            if None in kinds:
+                continue
+            ncmp += 1
+            ctx.check(kinds[0] == kinds[1], "C17-UNITS", "%s#compare@%d" % (b["id"], ncmp), "a %s position is compared with a %s quantity: the test is off by the number of bytes in "
+                      "front of the header (a valid stream near the end of a prefixed file is refused, or an invalid one accepted)" % (kinds[0], kinds[1]),
+                      b["blocks"][i]["term"].get("span", b["span"]), detail="both sides %s" % kinds[0])
     ctx.floor("C17-UNITS", nread, 7, "Backend::read call sites outside the blanket impl")
     ctx.floor("C17-UNITS", nwo, 4, "Lexer::with_offset call sites")
     # Rel sources present (anchors of the 'at least six places')
